@@ -128,7 +128,12 @@ def run(ctx):
         "closed_assumption_blocks": (pr or {}).get("closed_blocks", 0),
         "evaluations": summary.get("oracle_steps", 0) + summary.get("ids_files", 0) + summary.get("reid_cases", 0),
         "distinct_nontrivial": summary.get("oracle_distinct_project_states", 0),
-        "rule": "oracle: histories are generated from VERIF_SEED over four projects (corpus/C13/multi: 4 files with "
+        "rule": "oracle: histories are generated from VERIF_SEED over five projects (corpus/C13/gen: diagnostics that "
+                "originate in generated code - inline macros println!/format!/assert!/array!, user-defined macros, derives "
+                "on a type lacking the traits, generate_trait, `?` - whose histories (2 of 7) mostly edit INSIDE the macro "
+                "invocations / attributes: a space moved inside (same extent and length), delete-then-insert elsewhere "
+                "(cancelling lengths), inserted trivia, identifier renamed to one of the same length, two equal-length "
+                "arguments swapped, the same before the invocation on its line; corpus/C13/multi: 4 files with "
                 "traits/generics/impls/consts/inline fn; corpus/C13/single; a copy of /repo/examples: 21 files; "
                 "corpus/C13/diags: a project that carries >= 2 diagnostics of every phase - parser, semantic incl. inline "
                 "macros, lowering/borrow-check incl. inside loops/while/for/closures, warnings, plugin - whose histories "
